@@ -4,6 +4,11 @@
 //! `SignaturePublisher`, and feeds the real `HttpMithrilNetworkConfigurationProvider`).
 //! The front is the fault injector (drop the request / deliver but lose the reply / serve a stale
 //! epoch-settings reply / aggregator down) and the boundary event log.
+//! The signers' HTTP clients are the ones the signer's own `DependenciesBuilder::build()` makes: they
+//! carry nothing that names the signer. The front therefore opens ONE loopback listener (port) PER
+//! real signer -- `aggregator_endpoint` of signer i is the URL of listener i -- and all listeners
+//! share one state (fault plans, log, caches); a request is tagged with the index of the listener
+//! it came in through.
 use crate::agg::SharedRoutes;
 use serde_json::{json, Value};
 use std::collections::BTreeMap;
@@ -12,8 +17,6 @@ use std::sync::atomic::{AtomicBool, AtomicU64, Ordering};
 use std::sync::{Arc, Mutex};
 use warp::http::{HeaderMap, Method, Response, StatusCode};
 use warp::Filter;
-
-pub const SIGNER_HEADER: &str = "x-verif-signer";
 
 #[derive(Clone, Copy, Debug, PartialEq, Eq, PartialOrd, Ord)]
 pub enum ReqKind {
@@ -186,7 +189,7 @@ impl FrontState {
         for (k, v) in headers.iter() {
             let name = k.as_str();
             // hop-by-hop / transport headers are not forwarded; the payload is passed decoded
-            if ["host", "content-length", "connection", "accept-encoding", "transfer-encoding", SIGNER_HEADER].contains(&name) {
+            if ["host", "content-length", "connection", "accept-encoding", "transfer-encoding"].contains(&name) {
                 continue;
             }
             if let Ok(s) = v.to_str() {
@@ -203,8 +206,8 @@ impl FrontState {
         Some((resp.status().as_u16(), resp.headers().clone(), resp.body().to_vec()))
     }
 
-    async fn handle(self: Arc<Self>, method: Method, path: String, headers: HeaderMap, body: Vec<u8>) -> Response<Vec<u8>> {
-        let signer = headers.get(SIGNER_HEADER).and_then(|v| v.to_str().ok()).and_then(|s| s.parse::<usize>().ok());
+    /// `signer`: index of the listener the request came in through (= the real signer it belongs to)
+    async fn handle(self: Arc<Self>, signer: Option<usize>, method: Method, path: String, headers: HeaderMap, body: Vec<u8>) -> Response<Vec<u8>> {
         let kind = ReqKind::of(&method, &path);
         let seq = self.seq.fetch_add(1, Ordering::SeqCst);
         let body_json: Value = if body.is_empty() { Value::Null } else { serde_json::from_slice(&body).unwrap_or(Value::Null) };
@@ -278,34 +281,44 @@ impl FrontState {
 
 pub struct Front {
     pub state: Arc<FrontState>,
-    pub url: String,
-    task: tokio::task::JoinHandle<()>,
+    /// `urls[i]`: the aggregator endpoint of real signer i (its own listener)
+    pub urls: Vec<String>,
+    tasks: Vec<tokio::task::JoinHandle<()>>,
 }
 
 impl Front {
-    pub async fn spawn(routes: SharedRoutes) -> anyhow::Result<Front> {
+    /// one loopback listener per real signer, all of them in front of the same router and sharing
+    /// the same state
+    pub async fn spawn(routes: SharedRoutes, n_signers: usize) -> anyhow::Result<Front> {
         let state = FrontState::new(routes);
-        let listener = tokio::net::TcpListener::bind(("127.0.0.1", 0)).await?;
-        let addr = listener.local_addr()?;
-        let st = state.clone();
-        let filter = warp::any()
-            .and(warp::method())
-            .and(warp::path::full())
-            .and(warp::header::headers_cloned())
-            .and(warp::body::bytes())
-            .and_then(move |method: Method, path: warp::path::FullPath, headers: HeaderMap, body: warp::hyper::body::Bytes| {
-                let st = st.clone();
-                async move { Ok::<_, Infallible>(st.handle(method, path.as_str().to_string(), headers, body.to_vec()).await) }
-            });
-        let task = tokio::spawn(async move {
-            warp::serve(filter).incoming(listener).run().await;
-        });
-        Ok(Front { state, url: format!("http://127.0.0.1:{}/aggregator", addr.port()), task })
+        let mut urls = vec![];
+        let mut tasks = vec![];
+        for signer in 0..n_signers {
+            let listener = tokio::net::TcpListener::bind(("127.0.0.1", 0)).await?;
+            let addr = listener.local_addr()?;
+            let st = state.clone();
+            let filter = warp::any()
+                .and(warp::method())
+                .and(warp::path::full())
+                .and(warp::header::headers_cloned())
+                .and(warp::body::bytes())
+                .and_then(move |method: Method, path: warp::path::FullPath, headers: HeaderMap, body: warp::hyper::body::Bytes| {
+                    let st = st.clone();
+                    async move { Ok::<_, Infallible>(st.handle(Some(signer), method, path.as_str().to_string(), headers, body.to_vec()).await) }
+                });
+            tasks.push(tokio::spawn(async move {
+                warp::serve(filter).incoming(listener).run().await;
+            }));
+            urls.push(format!("http://127.0.0.1:{}/aggregator", addr.port()));
+        }
+        Ok(Front { state, urls, tasks })
     }
 }
 
 impl Drop for Front {
     fn drop(&mut self) {
-        self.task.abort();
+        for t in &self.tasks {
+            t.abort();
+        }
     }
 }
